@@ -166,6 +166,14 @@ def gen_actor(rng, aid, ntrees, others):
                         'via': rng.choice(['shared_reader', 'from_bytes',
                                            'from_stream'])})
 
+            if rng.chance(0.4):
+                # ... after a parse of a damaged copy that (usually) fails
+                ops.insert(len(ops) - 1,
+                           {'op': 'parse', 'tree': aid + '.junk',
+                            'from': rng.choice(everyone),
+                            'via': 'shared_reader',
+                            'cut': rng.randint(1, 4000)})
+
     return {'id': aid, 'kind': 'dom', 'ops': ops}, names
 
 
